@@ -80,6 +80,9 @@ def _atoms():
     add("x<=K0@", lambda c, V, K: c.ULE(V["x"], K[0]).annotate(_user_annotation(c)), lambda V, K: z3.ULE(V["x"], K[0]))
     add("x>K2@", lambda c, V, K: c.UGT(V["x"], K[2]).annotate(_user_annotation(c)), lambda V, K: z3.UGT(V["x"], K[2]))
     add("x!=K1@", lambda c, V, K: (V["x"] != K[1]).annotate(_user_annotation(c)), lambda V, K: V["x"] != K[1])
+    # CONCRETE contradicting equalities: the only constraints the pairwise shortcut at add() can decide (it caches an unsat core)
+    add("x==0!", lambda c, V, K: V["x"] == c.BVV(0, V["x"].length), lambda V, K: V["x"] == 0)
+    add("x==1!", lambda c, V, K: V["x"] == c.BVV(1, V["x"].length), lambda V, K: V["x"] == 1)
     add("true", lambda c, V, K: c.true(), lambda V, K: z3.BoolVal(True))
     add("false", lambda c, V, K: c.false(), lambda V, K: z3.BoolVal(False))
     add("b", lambda c, V, K: V["b"], lambda V, K: V["b"])
@@ -442,7 +445,7 @@ def check_log(be, log, s, prop):
             def tm(v):
                 return E.term(v) if isinstance(v, int) and not isinstance(v, bool) else None
 
-            if isinstance(ru, str) or isinstance(rt, str) or isinstance(ru, bool) or isinstance(rt, bool):
+            if isinstance(ru, str) or isinstance(rt, str) or isinstance(ru, bool) or isinstance(rt, bool) or ru is None or rt is None:
                 if ru != rt:
                     fails.append(Fail("pickle-differs", f"step {i}: {op[1:]}(exact=False) on the unpickled solver = {ru!r:.40}, on the original = {rt!r:.40} (solver {sid})", None, known_key="pickle-differs"))
             else:
@@ -453,7 +456,12 @@ def check_log(be, log, s, prop):
                     # as sets of n-bit values
                     n_ = ze.size() if z3.is_bv(ze) else None
                     if n_ is not None and lu:
-                        lo = lambda v: z3.Extract(n_ - 1, 0, tm(v))  # noqa: E731
+                        def lo(v):
+                            t = tm(v)
+                            if t is None or not z3.is_bv(t):   # a plain Python int (a bound that does not depend on the symbolic constants)
+                                return z3.BitVecVal(int(v) & ((1 << n_) - 1), n_)
+                            return z3.Extract(n_ - 1, 0, t)
+
                         diff = z3.Or(*[z3.And(*[lo(a) != lo(b) for b in lt]) for a in lu], *[z3.And(*[lo(b) != lo(a) for a in lu]) for b in lt])
                         fails.append(Fail("pickle-differs", f"step {i}: {op[1:]}(exact=False) = {lu!r:.50} on the unpickled solver but {lt!r:.50} on the original (solver {sid})", diff, known_key="pickle-differs"))
         elif kind == "asat":
@@ -472,6 +480,10 @@ def check_log(be, log, s, prop):
                                   ex(z3.And(F, missing)), known_key="approx"))
         elif kind in ("amin", "amax"):
             _, _, sid, r, F, ze, signed = rec
+            if r is None:
+                # the approximate optimum of an expression that has no value at all (unsatisfiable constraints) comes back as None
+                fails.append(Fail("approx-" + kind[1:], f"step {i}: {kind[1:]}(exact=False) = None although the expression can take a value (solver {sid})", ex(F), known_key="approx"))
+                continue
             m = lit(ze, r)
             if signed:
                 beyond = (ze < m) if kind == "amin" else (ze > m)
